@@ -264,6 +264,7 @@ pub fn c19(tier: Tier, _seed: u64) -> Prop {
         ],
         units: c19_units(tier),
         extra: crate::hv::shard::no_extra(),
+        profiles: vec!["release"],
     }
 }
 
@@ -497,6 +498,7 @@ pub fn c09(tier: Tier, _seed: u64) -> Prop {
             }
             json!({"history_steps": steps})
         }),
+        profiles: vec!["release"],
     }
 }
 
